@@ -19,7 +19,7 @@ def _items(pg):
 
     def blocks(bs):
         for b in bs:
-            out.extend(b)
+            out.extend(e for e in b if not apage.is_comment(e))
 
     def sec(s):
         blocks(s[1])
